@@ -87,7 +87,8 @@ def E_det(ctx, lib):
         sb = [x for x in lib.all_bodies if x.kind != "closure" and x.short.endswith("obdd::vectorize::serialize")][0]
         db = [x for x in lib.all_bodies if x.kind != "closure" and x.short.endswith("obdd::vectorize::deserialize")][0]
         dd = flow.Defs(db)
-        ok = any(e[0] == "call" and flow.last(e[2]) == "from_iter" for bb, t, ci, e in flow.all_call_exprs(db)[0])
+        ok = any(e[0] == "call" and (flow.last(e[2]) == "from_iter" or flow.last(e[2]) == "collect" and [s_[0] for s_ in flow.chain_of(e)[1]] == ["into_iter", "collect"])
+                 for bb, t, ci, e in flow.all_call_exprs(db)[0])
         ctx.ob(rule, "vectorize.reader-rebuilds-map", ok, where=db.where(), expected="deserialize rebuilds the map with from_iter (entry order irrelevant)", found=ok,
                note="whitelisted hash iteration: serialised map content")
     except IndexError:
